@@ -2547,6 +2547,8 @@ class Stream(AbstractStream):
         if len(phases) == 1:
             self.phase, = phases
         else:
+            if isinstance(self._imol._phase, tmo._phase.LockedPhase): # A phase view of a MultiStream
+                raise AttributeError('phase is locked; a phase view cannot become multi-phase')
             imol = self._imol.to_material_indexer(phases) # May raise UndefinedPhase; convert only on success
             self.__class__ = tmo.MultiStream
             self._imol = imol
